@@ -52,6 +52,10 @@ CHECKS = {
  "C11": (MC, "5/C11",
   "Misuse classes (index outside the shape incl. negative, string too long for the space fixed at creation, array update of another length, same-length update with larger dynamic items, union non-member by object and by name, buffer of another context, offset without buffer) executed on symbolically placed objects with live neighbours: an exception must be raised, the write log must be unchanged at that point for every placement, object and neighbours keep their values.",
   W_NOTE, W_TECH),
+ "C13": (MC, "5/C13",
+  "PARTIAL. The real slice-arithmetic primitives of BufferNumpy and BufferByteArray (update_from_native incl. overlapping same-storage copies, copy_to_native, to_native, update_from_buffer, to_bytearray, to_pointer_arg) and XBuffer.update_from_xbuffer (same context / other context / other buffer kind) are executed on a symbolic byte-container model whose length and content are solver variables; for every capacity, offset, source offset and length with ranges inside both containers a Skolem-position postcondition is proved: exactly the requested bytes change, to exactly the source bytes, lengths unchanged, source untouched, extracted copies are not views. NOT covered: update_from_nplike, to_nplike/to_nparray, scalar.py helpers (NumPy dtype conversion/views are C code outside the technique).",
+  "S6: container model of bytearray / 1-D int8 ndarray slicing (clamping, bytearray length change, ndarray broadcast error, view aliasing), validated each run against the real containers on ~2000 small cases; len/bytearray names in xobjects.context_cpu are replaced for the run.",
+  "symbolic execution of the real primitives on a symbolic container (uninterpreted content function, Skolem position); z3 unsat per obligation; concrete replay"),
  "C14": (EX, "5/C14",
   "Bounded exhaustive path enumeration of the real sort_classes/topological_sort/sources_from_classes on abstract classes whose dependency edges (none / inner type / declared dependency) are solver variables; every branch on an edge is a solver-decided fork, so each feasible path is one dependency graph inside the bound (<=3 classes quick, <=4 thorough; enumerated root lists and API masks). Per graph: acyclic => no error, each reachable class with an API exactly once, dependencies first, one source block per class; cyclic => ValueError. This is the weakest use of the technique (the solver only prunes and supplies models) and is labelled as such.",
   "graphs with more classes are outside the claim; 'the emitted source compiles' is observed only in the replay of a counterexample (real Struct classes + cffi build); A2 (distinct names).",
